@@ -37,6 +37,25 @@ def scenarios(rng, tier):
             off = rng.choice([near(rng, P), 0, 0x7FFF, 0x8000, 0xFFFF, isz, max(isz - 1, 0), isz + 1]) & 0xFFFF
             s.frame(0, qlt(M, own, typ, off, seq=rng.choice([0, 1, 0xFFFF, rng.randrange(65536)]), tos=rng.choice([0, 1]), esrc=ME))
             if rng.random() < 0.1: s.frame(0, reset(M)); s.frame(0, discover(M, gen=1, esrc=ME))
+    for k in range(16 if tier == 'quick' else 300):
+        mtu = rng.choice([576, 1500]); cfg = Cfg(0, mtu=mtu); own = cfg.own(); P = mtu - 34
+        i1 = bytes((5 * j + k) & 255 for j in range(rng.choice([700, 3100, 4321]))); i2 = bytes((11 * j + 3) & 255 for j in range(rng.choice([500, 3100, 4321])))
+        s.start('resets_%d' % k); s.lines.append(cfg.line()); s.lines.append(gline(icon=i1, fname=b'name one', hwid=b'hw'))
+        M = mac(1); s.frame(0, discover(M, gen=1))
+        for off in range(0, len(i1) + 1, P): s.frame(0, qlt(M, own, 14, off, seq=2))
+        for step in rng.choice([('q', 't'), ('t',), ('q', 't', 'q'), ('t', 'q'), ('q', 'q', 't')]):
+            s.frame(0, reset(rng.choice([M, mac(2)]), tos=1 if step == 'q' else 0))
+        s.lines.append(gline(icon=i2, fname=b'name two is longer', hwid=b'hw'))
+        if rng.random() < 0.7: s.frame(0, discover(M, gen=2))
+        for off in range(0, len(i2) + 1, P): s.frame(0, qlt(M, own, 14, off, seq=3))
+        s.frame(0, qlt(M, own, 17, 0, seq=4))
+    for k in range(10 if tier == 'quick' else 200):
+        m0, m1 = rng.choice([(1500, 576), (9216, 1500), (1500, 590), (576, 1500)])
+        icon = bytes((3 * j) & 255 for j in range(5000))
+        s.start('mtuwalk_%d' % k); s.lines.append(Cfg(0, mtu=m0).line()); s.lines.append(gline(icon=icon, fname=bytes(range(250)) * 3))
+        M = mac(1); s.frame(0, discover(M, gen=1)); s.frame(0, qlt(M, OWN0, 14, 0, seq=2)); s.frame(0, qlt(M, OWN0, 17, 0, seq=2))
+        s.lines.append(Cfg(0, mtu=m1).line())
+        for off in (m0 - 34, m0 - 34 + m1 - 34, 0, m1 - 34): s.frame(0, qlt(M, OWN0, 14, off, seq=3)); s.frame(0, qlt(M, OWN0, 17, off % 700, seq=3))
     return [(s.text(), {})]
 def project(blk, name, meta):
     if blk.fault: return ('fault',)
@@ -63,7 +82,8 @@ def oracle(name, ib, mb, meta):
     fails = []; mtu = 1500; own = OWN0; g = dict(icon=None, fname=None, hwid=b''); acc = {}
     for i, b in enumerate(ib):
         if b.op.startswith('cfg 0'):
-            kv = dict(t.split('=', 1) for t in b.op.split()[2:]); mtu = int(kv['mtu']); own = bytes.fromhex(kv['mac'])
+            kv = dict(t.split('=', 1) for t in b.op.split()[2:]); mtu = int(kv.get('mtu', mtu)); own = bytes.fromhex(kv.get('mac', own.hex()))
+            if kv.get('mtufail') == '1' or mtu == 0: mtu = 1500 if 'c08' != 'c06' else -1   # getter fails: the responder assumes 1500 (an Emit is dropped)
         elif b.op.startswith('cfg g'): g = gcfg_of(b.op)
         if not b.op.startswith('frame') or b.fault: continue
         ctx, fr = frame_of(b); d = dec(fr + bytes(max(0, 36 - len(fr))))
